@@ -7,7 +7,7 @@
 Require Import ZArith List Lia Bool.
 Import ListNotations.
 Local Open Scope Z_scope.
-From EphVerif Require Import lib.Bytes model.FetchModel proofs.FetchProofs.
+From EphVerif Require Import lib.Bytes model.FetchModel proofs.FetchProofs proofs.FetchDropProofs.
 
 (* in every reachable state: one record per chunk; the per-peer counter IS the number of that peer's requests in flight; and it
    never exceeds fetch_max_parallel_requests (0 = unlimited) *)
@@ -49,6 +49,19 @@ Proof. exact failed_send_schedule. Qed.
 (* dropping: clear_pending_fetch removes exactly the named fetch, and everything a pass marks as completed is gone after it *)
 Theorem c24_cleared_fetches_are_gone : forall l s ch, In ch l -> ffind ch (fetches (fold_left clear l s)) = None.
 Proof. exact fold_clear_removes. Qed.
+
+(* ... in particular, in every reachable state a pass leaves no fetch whose chunk is held or whose manifest has run out,
+   whatever it was doing (waiting for a retry, in flight, ready): fetching always terminates at the manifest's expiry *)
+Theorem c24_pass_drops_due_fetches : forall c expires ops t0 now,
+  let s := fst (run_ops c expires (init, t0) ops) in
+  forall f, In f (fetches (fst (process c s now))) ->
+    memz (f_chunk f) (held s) = false /\ (f_expires f = 0 \/ now < f_expires f).
+Proof.
+  intros c expires ops t0 now. cbv zeta. intros f Hin.
+  pose proof (process_drops c _ now (reachable_inv c expires ops (init, t0) (Inv_init c)) f Hin) as K.
+  unfold dead, deadk in K. split; [destruct (memz _ _); [discriminate | reflexivity] | lia].
+Qed.
+Print Assumptions c24_pass_drops_due_fetches.
 
 (* non-vacuity, and the two historical failures: (1) a fetch in flight at peer 1 is announced again by peer 1 and then by peer 2,
    the chunk arrives: no counter is left behind; (2) attempt limit 2, requests sent but never answered: the fetch ends *)
